@@ -50,6 +50,7 @@ type SliceV struct {
 }
 type IfaceV struct {
 	Lib    bool  // error created by an external library call: never one of the repository's sentinel errors
+	Origin string // module of the external library that made the error (it is never a sentinel of ANOTHER library)
 	ID     *Term // Int; 0 == nil interface
 	Dyn    types.Type
 	Val    Value
